@@ -91,6 +91,9 @@ func TestVerifC03Sched(t *testing.T) {
 		if rapid.Bool().Draw(t, "openFirst") {
 			f.rotate1()
 		}
+		// one case in eight: every amount is close to 2^63, so that the persisted value reaches its limit through
+		// several goroutines adding at the same time (it must stick at 2^64-1, not wrap)
+		hugeAdds := rapid.IntRange(0, 7).Draw(t, "hugeAdds") == 0
 		nthreads := rapid.IntRange(2, 5).Draw(t, "nthreads")
 		progs := make([][]c03Op, nthreads)
 		saturating := false
@@ -102,6 +105,9 @@ func TestVerifC03Sched(t *testing.T) {
 				op.name = rapid.IntRange(0, nnames-1).Draw(t, "name")
 				op.obj = rapid.SampledFrom([]int{0, 0, 0, 1}).Draw(t, "obj")
 				op.n = rapid.OneOf(rapid.Int64Range(1, 100), rapid.Int64Range(1, 100), rapid.SampledFrom([]int64{1 << 32, 1<<33 - 2, 1<<33 - 1, 1 << 33, 1 << 62, 1<<63 - 1})).Draw(t, "n")
+				if hugeAdds {
+					op.n = rapid.SampledFrom([]int64{1<<63 - 1, 1<<63 - 1, 1 << 62}).Draw(t, "hugeN")
+				}
 				if op.n >= 1<<32 {
 					saturating = true
 				}
@@ -404,7 +410,7 @@ func TestVerifC03Sched(t *testing.T) {
 		}
 		nt := switches > nthreads && len(overlapped) > 0
 		vstats.Case(fmt.Sprintf("poison=%v names=%d progs=%s schedule(len %d, %d switches)=%v", poison, nnames, strings.Join(ps, " "), len(trace), switches, tail(trace, 60)), nt,
-			fmt.Sprintf("poison:%v", poison), fmt.Sprintf("saturating:%v", saturating), fmt.Sprintf("growthHeavy:%v", growthHeavy), "overlap:"+strings.Join(ov, "+"), fmt.Sprintf("switches>10:%v", switches > 10))
+			fmt.Sprintf("poison:%v", poison), fmt.Sprintf("saturating:%v", saturating), fmt.Sprintf("growthHeavy:%v", growthHeavy), fmt.Sprintf("hugeAdds:%v", hugeAdds), "overlap:"+strings.Join(ov, "+"), fmt.Sprintf("switches>10:%v", switches > 10))
 		vstats.Note("scheduler_steps", int64(len(trace)))
 		vstats.NoteMax("max_steps_per_case", int64(len(trace)))
 	})
